@@ -1,20 +1,20 @@
-SPECIFICATION FairSpec
+SPECIFICATION Spec
 CONSTANTS
   Mode = "oneshot"
-  CupOn = TRUE
-  Apps0 <- MCApps1
+  CupOn = FALSE
+  Apps0 <- MCApps2
   SysApp = "a"
-  UcAnswers <- MCUcRetry
+  UcAnswers <- MCUcSfail
   EvAnswers <- MCEvOk
   PingAnswers <- MCPing
   PlanAnswers = {"ok"}
-  StartAnswers = {"ok"}
-  ResultLetters = {"i"}
-  NeededAnswers = {FALSE}
+  StartAnswers = {"ok", "deferred"}
+  ResultLetters = {"i", "f"}
+  NeededAnswers = {TRUE}
   AllowedAnswers = {TRUE}
   CheckAnswers <- MCCheckAll
   NextAnswers <- MCNext1
-  BackoffDraws <- MCDraws2
+  BackoffDraws = {0}
   ProgressSeqs <- MCProg0
   MaxChecks = 1
   MaxCtl = 0
@@ -22,9 +22,8 @@ CONSTANTS
   MaxRebootAsks = 0
   MaxCrashes = 0
   RestartRuns <- MCRestartNone
-  FailSets <- MCFailNone
+  FailSets <- MCFailPairs
   Mut = "none"
-PROPERTY ResultDelivered
-PROPERTY Terminates
+INVARIANT NoViolation
+INVARIANT PrintDone
 CHECK_DEADLOCK FALSE
-VIEW View
